@@ -49,11 +49,13 @@ def documents(tier):
             if glocal == "before":
                 lines.append('        x = "S2"')
             lines.append(f'        emit(["u2{T}", x])')
-            lines.append(f'        r = [emit(["u3{T}", x]) for {cv} in ["S3"]]')
+            # u5: iterable of the FIRST for clause (evaluated in the enclosing scope); u6: iterable of a later clause (sees cv)
+            lines.append(f'        r = [emit(["u3{T}", x]) for {cv} in [emit(["u5{T}", x]) or "S3"] for z in [emit(["u6{T}", x]) or 1]]')
             if glocal == "after":
                 lines.append('        x = "S2"')
             lines.append("        return r")
-            lines.append(f'    h = lambda {lp} = "S4": emit(["u4{T}", x])  # {T}')
+            # u7: default value of a lambda parameter (evaluated in the enclosing scope)
+            lines.append(f'    h = lambda {lp} = emit(["u7{T}", x]) or "S4": emit(["u4{T}", x])  # {T}')
             lines.append("    g()")
             lines.append("    h()")
             if flocal == "after":
@@ -64,8 +66,7 @@ def documents(tier):
             text = nl.join(lines) + nl
             uses, sites = {}, {}
             for li, l in enumerate(lines):
-                m = re.search(r'emit\(\["(u\d)[^"]*", (x)\]\)', l)
-                if m:
+                for m in re.finditer(r'emit\(\["(u\d)[^"]*", (x)\]\)', l):
                     uses[m.group(1)] = (li, m.start(2))
                 m = re.match(r'^(\s*)x = "(S\d)"$', l)
                 if m:
@@ -73,10 +74,10 @@ def documents(tier):
                 m = re.match(r'^def f\(x = "S1"\):$', l)
                 if m:
                     sites[(li, 6)] = "S1"
-                m = re.search(r'for (x) in \["S3"\]', l)
+                m = re.search(r'for (x) in \[emit', l)
                 if m:
                     sites[(li, m.start(1))] = "S3"
-                m = re.search(r'lambda (x) = "S4"', l)
+                m = re.search(r'lambda (x) = emit', l)
                 if m:
                     sites[(li, m.start(1))] = "S4"
             yield text, lines, nl, uses, sites
@@ -110,6 +111,55 @@ def slice_range(r, lines):
     if a is None or b is None:
         return None
     return l[a:b]
+
+
+# ---- model of the known position-encoding defect (known-findings.json, C19:position-encoding): the server adds an incoming
+# `character` to the BYTE offset of the line start, and reports outgoing columns in CODE POINTS.  A violation is filed under the
+# known finding only when the response is exactly what this model predicts; anything else is a new violation.
+
+def byte_to_idx(line, b):
+    """byte offset within the line -> caret index in code points (None: inside a character or beyond the line)."""
+    n = 0
+    for i, ch in enumerate(line):
+        if n == b:
+            return i
+        n += len(ch.encode("utf-8"))
+    return len(line) if n == b else None
+
+
+def cp_slice(r, lines):
+    if r["start"]["line"] != r["end"]["line"] or r["start"]["line"] >= len(lines):
+        return None
+    l = lines[r["start"]["line"]]
+    a, b = r["start"]["character"], r["end"]["character"]
+    if a > len(l) or b > len(l) or a > b:
+        return None
+    return l[a:b]
+
+
+def cp_range_ok(r, lines):
+    for k in ("start", "end"):
+        ln, ch = r[k]["line"], r[k]["character"]
+        if ln > len(lines) or (ln == len(lines) and ch != 0):
+            return False
+        if ln < len(lines) and ch > len(lines[ln]):
+            return False
+    return (r["start"]["line"], r["start"]["character"]) <= (r["end"]["line"], r["end"]["character"])
+
+
+TOKEN = re.compile(r'"[^"]*"|[A-Za-z_]\w*|\d+|\S')
+
+
+def ident_touching(line, caret):
+    """(start, end, text) of the identifier the caret touches (start <= caret <= end), else None."""
+    for m in re.finditer(r"[A-Za-z_]\w*", line):
+        if m.start() <= caret <= m.end():
+            return m.start(), m.end(), m.group(0)
+    return None
+
+
+def in_string(line, caret):
+    return any(m.start() < caret < m.end() for m in re.finditer(r'"[^"]*"', line))
 
 
 def all_ranges(o, path=""):
@@ -218,9 +268,29 @@ def run(tier):
                 check_range(rg, lines, pth, problems)
             if problems:
                 cls = "diagnostic" if "diagnostics" in r else op.get("method", "").split("/")[-1]
-                astral = any(ord(ch) > 0xFFFF for ch in (cur or ""))
-                res.violation(f"C19:position-encoding:range:{cls}" if astral else f"C19:invalid-range:{cls}", {"op": {k: v for k, v in op.items() if k != "text"},
+                # known defect iff every offending range is valid when its columns are read as code points and the lines it
+                # touches contain an astral character (the only case in which the two conventions differ)
+                bad = [rg for pth, rg in all_ranges(payload) if not ("target" in pth and kind == "load") and not check_range(rg, lines, pth, [])]
+                model = all(cp_range_ok(rg, lines) and any(ord(ch) > 0xFFFF for ln in range(rg["start"]["line"], min(rg["end"]["line"] + 1, len(lines))) for ch in lines[ln])
+                            for rg in bad)
+                res.violation(f"C19:position-encoding:range:{cls}" if model else f"C19:invalid-range:{cls}", {"op": {k: v for k, v in op.items() if k != "text"},
                                                                                            "text": cur, "problems": problems[:3], "response": payload})
+            # the token under the cursor that a definition answer reports (originSelectionRange) must be a whole token of the line
+            if op.get("method") == "textDocument/definition" and isinstance(payload, list) and not problems:
+                for loc in payload:
+                    osr = loc.get("originSelectionRange")
+                    if not osr or osr["start"]["line"] >= len(lines):
+                        continue
+                    ln = lines[osr["start"]["line"]]
+                    toks = {m.group(0) for m in TOKEN.finditer(ln)} | {m.group(0)[1:-1] for m in re.finditer(r'"[^"]*"', ln)}
+                    s16 = slice_range(osr, lines)
+                    if s16 in toks:
+                        continue
+                    if cp_slice(osr, lines) in toks:
+                        res.violation("C19:position-encoding:origin-range", {"text": cur, "position": op["params"]["position"], "originSelectionRange": osr, "slice_utf16": s16})
+                    else:
+                        res.violation("C19:origin-range-not-a-token", {"text": cur, "position": op["params"]["position"], "originSelectionRange": osr,
+                                                                       "slice_utf16": s16, "slice_code_points": cp_slice(osr, lines)})
         if kind == "diag":
             T, text = info
             dl = re.split(r"\r\n|\n", text)
@@ -230,7 +300,7 @@ def run(tier):
                     continue
                 got = slice_range(dg["range"], dl)
                 if got != names[-1]:
-                    wide = any(ord(ch) > 0xFFFF for ch in text)
+                    wide = cp_slice(dg["range"], dl) == names[-1]     # exactly the known defect: right in code points
                     res.violation("C19:position-encoding:diagnostic-range" if wide else "C19:diagnostic-range-not-name",
                                   {"text": text, "message": dg["message"], "range": dg["range"], "slice_utf16": got})
         if kind == "uses":
@@ -263,22 +333,45 @@ def run(tier):
                         continue
                     distinct.add((info, tag))
                     locs = r["result"] if isinstance(r["result"], list) else ([r["result"]] if r["result"] else [])
-                    nonascii = any(ord(ch) > 127 for ch in lines[li][:idx])
+                    # what the known defect predicts for the INCOMING position: the caret is at byte offset `character`
+                    c16 = idx_to_u16(lines[li], idx) + off
+                    caret_m = byte_to_idx(lines[li], c16)
+                    shifted = caret_m != idx + off          # the defect moves the caret (non-ASCII text before it)
+                    touched = ident_touching(lines[li], caret_m) if caret_m is not None else None
+                    pos = {"text": text, "use": tag, "position": [li, c16], "scope_read": read[tag]}
+                    if shifted and not (touched and touched[0] == idx):
+                        # the server looks somewhere else on the line.  Predicted: nothing found if the caret is inside a
+                        # character, inside a string literal or touches no identifier; if it touches another identifier the
+                        # answer is about that identifier (not judged).  Anything else is a new violation.
+                        if caret_m is None or in_string(lines[li], caret_m) or touched is None:
+                            if locs:
+                                tr0 = locs[0].get("targetSelectionRange") or locs[0].get("range")
+                                res.violation("C19:definition-unexpected-under-known-defect", dict(pos, caret_by_defect_model=caret_m, target=tr0))
+                            else:
+                                res.violation("C19:position-encoding:definition-not-found", pos)
+                        continue
                     if not locs:
-                        res.violation("C19:position-encoding:definition-not-found" if nonascii else "C19:definition-not-found",
-                                      {"text": text, "use": tag, "position": [li, idx_to_u16(lines[li], idx) + off], "scope_read": read[tag]})
+                        res.violation("C19:definition-not-found", pos)
                         continue
                     tr = locs[0].get("targetSelectionRange") or locs[0].get("range")
                     tl = tr["start"]["line"]
-                    tidx = u16_to_idx(lines[tl], tr["start"]["character"]) if tl < len(lines) else None
-                    scope = sites.get((tl, tidx))
+                    ok16 = False
+                    if tl < len(lines):
+                        tidx = u16_to_idx(lines[tl], tr["start"]["character"])
+                        ok16 = slice_range(tr, lines) == "x" and sites.get((tl, tidx)) == read[tag]
+                    if ok16:
+                        continue
+                    # outgoing columns in code points (known defect) - only different when an astral character precedes the target
+                    okcp = tl < len(lines) and cp_slice(tr, lines) == "x" and sites.get((tl, tr["start"]["character"])) == read[tag]
+                    if okcp:
+                        res.violation("C19:position-encoding:definition-range", dict(pos, target=tr))
+                        continue
                     ident = slice_range(tr, lines)
-                    if ident != "x":
-                        res.violation("C19:position-encoding:definition-range" if (nonascii or any(ord(ch) > 127 for ch in (lines[tl] if tl < len(lines) else ""))) else "C19:definition-range-not-identifier",
-                                      {"text": text, "use": tag, "target": tr, "slice": ident})
-                    elif scope != read[tag]:
-                        res.violation("C19:position-encoding:definition-wrong-target" if nonascii else "C19:definition-wrong-scope", {"text": text, "use": tag, "resolved_to_scope": scope, "program_reads_scope": read[tag],
-                                                                     "target": tr})
+                    if ident != "x" and cp_slice(tr, lines) != "x":
+                        res.violation("C19:definition-range-not-identifier", dict(pos, target=tr, slice_utf16=ident))
+                    else:
+                        tidx = u16_to_idx(lines[tl], tr["start"]["character"]) if ident == "x" else tr["start"]["character"]
+                        res.violation("C19:definition-wrong-scope", dict(pos, resolved_to_scope=sites.get((tl, tidx)), program_reads_scope=read[tag], target=tr))
     res.coverage = {
         "evaluations": n_req,
         "distinct_nontrivial": len(distinct),
